@@ -306,6 +306,14 @@ def run(ctx):
                 continue
             lc.run_history([("new", 1, "A")] + [("recompile", 0, t) for t in seq], "exhaustive3")
     # late failures other than a keyword: unencodable text, nesting beyond the Python compiler's limits
+    # a text far beyond the explored sizes (a 2600-rung else-if ladder: the code generator's recursion gives up): whatever
+    # happens to it, happens every time, on every evaluator, and leaves the evaluator alone
+    if ctx.shard in (0, 7) and not ctx.quick():  # (thorough tier only: each parse of it takes seconds)
+        TEXTS["late_ladder"] = ("def exp { splitters: uid if n == 0 { return \"l0\" weighted 1 } "
+                                + " ".join(f'else if n == {i} {{ return "l{i}" weighted 1 }}' for i in range(1, 2600)) + " }")
+        LATE_FAIL["late_ladder"] = TEXTS["late_ladder"]
+        lc.run_history([("new", 1, "A"), ("new", 0, "A_weights"), ("recompile", 0, "late_ladder"), ("recompile", 0, "late_ladder"),
+                        ("recompile", 1, "late_ladder"), ("new", 2, "late_ladder"), ("recompile", 0, "late_ladder")], "deep-ladder")
     # copies taken at different moments of a recompile history
     for seq in itertools.permutations(["A", "A_weights", "B_name", "bad_char"], 3):
         idx += 1
